@@ -25,6 +25,7 @@ package server
 
 //@ unit (*NamespaceManager).ExpandCurie
 //@   prop C13
+//@   requires [callers-hold-no-lock-at-or-above-the-namespace-lock] forall l int :: has($held, l) ==> lockLevel(l) < 5
 //@   requires namespaceManager != nil && !has($held, addrOf(namespaceManager.lock))
 //@   ensures [first-colon-split] indexOf(curie, ":") >= 0 && has(namespaceManager.prefixToExpansionMapping, curie[:indexOf(curie, ":")])
 //@     | ==> ret1 == nil && ret0 == namespaceManager.prefixToExpansionMapping[curie[:indexOf(curie, ":")]] + curie[indexOf(curie, ":")+1:]
@@ -35,6 +36,7 @@ package server
 
 //@ unit (*NamespaceManager).GetPrefixMappingForExpansion
 //@   prop C13
+//@   requires [callers-hold-no-lock-at-or-above-the-namespace-lock] forall l int :: has($held, l) ==> lockLevel(l) < 5
 //@   requires namespaceManager != nil && !has($held, addrOf(namespaceManager.lock))
 //@   ensures [lookup] has(namespaceManager.expansionToPrefixMapping, uriExpansion) ==> ret1 == nil && ret0 == namespaceManager.expansionToPrefixMapping[uriExpansion]
 //@   ensures [lock-released] $held == old($held)
@@ -42,6 +44,7 @@ package server
 
 //@ unit (*NamespaceManager).GetPrefixToExpansionMap
 //@   prop C13
+//@   requires [callers-hold-no-lock-at-or-above-the-namespace-lock] forall l int :: has($held, l) ==> lockLevel(l) < 5
 //@   requires namespaceManager != nil && !has($held, addrOf(namespaceManager.lock))
 //@   ensures [lock-released] $held == old($held)
 //@   ensures [snapshot-copy] result != namespaceManager.prefixToExpansionMapping
@@ -61,6 +64,7 @@ package server
 
 //@ unit (*NamespaceManager).AssertPrefixMappingForExpansion
 //@   prop C13
+//@   requires [callers-hold-no-lock-at-or-above-the-namespace-lock] forall l int :: has($held, l) ==> lockLevel(l) < 5
 //@   requires namespaceManager != nil && !has($held, addrOf(namespaceManager.lock))
 //@   requires-inv [inv-maps] namespaceManager.prefixToExpansionMapping != nil && namespaceManager.expansionToPrefixMapping != nil && namespaceManager.prefixToExpansionMapping != namespaceManager.expansionToPrefixMapping
 //@   requires-inv [inv-dense] forall i int :: 0 <= i && i < len(namespaceManager.prefixToExpansionMapping) ==> has(namespaceManager.prefixToExpansionMapping, "ns" + itoa(i))
@@ -94,6 +98,7 @@ package server
 // compacting a URI and expanding the CURIE again gives the URI back: the result satisfies ExpandCurie's success condition with value val
 //@ unit (*Store).GetNamespacedIdentifierFromURI
 //@   prop C13
+//@   requires [callers-hold-no-lock-at-or-above-the-namespace-lock] forall l int :: has($held, l) ==> lockLevel(l) < 5
 //@   requires s != nil && s.NamespaceManager != nil && !has($held, addrOf(s.NamespaceManager.lock))
 //@   ensures [roundtrip] ret1 == nil ==> indexOf(ret0, ":") >= 0 && has(s.NamespaceManager.prefixToExpansionMapping, ret0[:indexOf(ret0, ":")])
 //@     | && s.NamespaceManager.prefixToExpansionMapping[ret0[:indexOf(ret0, ":")]] + ret0[indexOf(ret0, ":")+1:] == val
@@ -315,3 +320,157 @@ package server
 //@     invariant pos0 < N(txnG) && isChange(K(txnG, pos0), ds.InternalID) ==> kseq(K(txnG, pos0)) >= since
 //@     invariant forall j int :: has(emitted, j) ==> pos0 <= j && j < nextPos
 //@     invariant !latestOnly ==> (forall j int :: pos0 <= j && j < nextPos ==> has(emitted, j))
+
+// ---------------------------------------------------------------------------
+// C01 / C02: content equality used by the write-time duplicate detection
+
+//@ spec norm(v iface) iface
+//@ spec deq(a iface, b iface) bool
+//@ axiom deq_refl: forall a iface :: deq(a, a)
+// finite maps: a sub-map with as many keys is the whole map (cardinality; not derivable from the array model of maps)
+//@ axiomlemma same_size_submap(a map[string]interface{}, b map[string]interface{}): (forall k string :: has(a, k) ==> has(b, k)) && len(a) == len(b) ==> (forall k string :: has(b, k) ==> has(a, k))
+
+//@ assumed server.toJsonValue
+//@   pure
+//@   ensures ret0 == norm(value)
+//@ assumed (reflect.Type).Kind
+//@   pure
+//@ assumed reflect.DeepEqual
+//@   pure
+//@   ensures result == deq(x, y)
+
+//@ unit server.IsEntityEqual
+//@   prop C01
+//@   requires [prev] prevEntity != nil
+//@   requires [this] thisEntity != nil
+//@   ensures [equal-means-same-deleted-flag] result ==> prevEntity.IsDeleted == thisEntity.IsDeleted
+//@   ensures [equal-means-same-ref-keys] result ==> (forall k string :: has(prevEntity.References, k) <==> has(thisEntity.References, k))
+//@   ensures [equal-means-same-prop-keys] result ==> (forall k string :: has(prevEntity.Properties, k) <==> has(thisEntity.Properties, k))
+//@   ensures [equal-means-same-ref-values] result ==> (forall k string :: has(prevEntity.References, k) ==> deq(norm(prevEntity.References[k]), norm(thisEntity.References[k])))
+//@   ensures [equal-means-same-prop-values] result ==> (forall k string :: has(prevEntity.Properties, k) ==> deq(norm(prevEntity.Properties[k]), norm(thisEntity.Properties[k])))
+//@   modifies none
+//@   at return
+//@     use same_size_submap(prevEntity.References, thisEntity.References)
+//@     use same_size_submap(prevEntity.Properties, thisEntity.Properties)
+//@   loop 1
+//@     invariant forall k string :: visited(k) ==> has(thisEntity.References, k) && deq(norm(prevEntity.References[k]), norm(thisEntity.References[k]))
+//@   loop 2
+//@     invariant forall k string :: has(prevEntity.References, k) ==> has(thisEntity.References, k) && deq(norm(prevEntity.References[k]), norm(thisEntity.References[k]))
+//@     invariant forall k string :: visited(k) ==> has(thisEntity.Properties, k) && deq(norm(prevEntity.Properties[k]), norm(thisEntity.Properties[k]))
+
+// ---------------------------------------------------------------------------
+// The write loop (C01, C02, C03, C04, C06, C09, C19): every key written for a batch element has the layout the
+// readers and the garbage collector decode, is stamped with the transaction time and goes through the caller's txn.
+
+//@ assumed (*Store).assertIDForURI
+//@   modifies $held, map[string]uint64
+//@   ensures ret2 == nil ==> ret0 >= 0
+
+//@ unit (*Dataset).StoreEntitiesWithTransaction
+//@   prop C01 C02 C03 C04 C06 C09 C19
+//@   ghost firstG bool = true
+//@   ghost wroteG bool = false
+//@   ghost isnewG bool = false
+//@   ghost hasStoredG bool = false
+//@   ghost eqStoredG bool = false
+//@   ghost hasLocalG bool = false
+//@   ghost eqLocalG bool = false
+//@   ghost newitemsStartG int = 0
+//@   requires ds != nil && ds.store != nil && txn != nil && txnTime >= 0
+//@   requires forall i int :: 0 <= i && i < len(entities) ==> entities[i] != nil
+//@   requires ds.fullSyncStarted ==> ds.fullSyncSeen != nil
+//@   safe nilmap
+//@   at call assertIDForURI#1 before
+//@     ghost firstG := false
+//@     ghost wroteG := false
+//@     ghost hasStoredG := false
+//@     ghost eqStoredG := false
+//@     ghost hasLocalG := false
+//@     ghost eqLocalG := false
+//@     ghost newitemsStartG := newitems
+//@   at call assertIDForURI#1
+//@     ghost isnewG := $result1
+//@   at call Marshal#1 before
+//@     assert [C09:seen-recorded-while-a-sync-is-active] ds.fullSyncStarted ==> has(ds.fullSyncSeen, rid)
+//@     assert [C06:version-stamped-with-transaction-time] e.Recorded == txnTime && e.InternalID == rid
+//@   at call Get#2
+//@     ghost hasStoredG := true
+//@   at $2 call IsEntityEqual#1
+//@     ghost eqStoredG := $result
+//@   at call Unmarshal#1 before
+//@     ghost hasLocalG := true
+//@   at call IsEntityEqual#1
+//@     ghost eqLocalG := $result
+//@   at call Set#1 before
+//@     assert [C01,C02:write-only-if-new-or-different] isnewG || (hasLocalG && !eqLocalG) || (!hasLocalG && !(hasStoredG && eqStoredG))
+//@     assert [C01,C04:json-key-layout] $arg0 == txn && len(key) == 24 && encBE16(key, 0) == 1 && encBE64(key, 2) == rid && encBE32(key, 10) == ds.InternalID && encBE64(key, 14) == txnTime && encBE16(key, 22) == batchSeqNum
+//@     assert [C01:json-value-is-this-version] val == jsonData
+//@     ghost wroteG := true
+//@   at call Set#2 before
+//@     assert [C02,C04:change-key-layout] $arg0 == txn && len(key) == 22 && encBE16(key, 0) == 4 && encBE32(key, 2) == ds.InternalID && encBE64(key, 6) == nextEntitySeq && encBE64(key, 14) == rid
+//@     assert [C02:change-entry-names-this-version] val == entityIDBuffer
+//@   at call Set#3 before
+//@     assert [C01,C04:latest-key-layout] $arg0 == txn && len(key) == 14 && encBE16(key, 0) == 8 && encBE32(key, 2) == ds.InternalID && encBE64(key, 6) == rid
+//@     assert [C01:latest-points-to-written-version] val == entityIDBuffer
+//@   at call Set#4 before
+//@     assert [C03,C06:outgoing-key-new-entity] $arg0 == txn && len(key) == 40 && encBE16(key, 0) == 3 && encBE64(key, 2) == rid && encBE64(key, 10) == txnTime && encBE64(key, 18) == predid && encBE64(key, 26) == relatedid && encBE16(key, 34) == (e.IsDeleted ? 1 : 0) && encBE32(key, 36) == ds.InternalID
+//@   at call Set#5 before
+//@     assert [C03,C06:incoming-twin-new-entity] $arg0 == txn && len(key) == 40 && encBE16(key, 0) == 2 && encBE64(key, 2) == relatedid && encBE64(key, 10) == rid && encBE64(key, 18) == txnTime && encBE64(key, 26) == predid && encBE16(key, 34) == (e.IsDeleted ? 1 : 0) && encBE32(key, 36) == ds.InternalID
+//@   at call Set#6 before
+//@     assert [C03,C06:incoming-tombstone-deleted-entity] $arg0 == txn && len(key) == 40 && encBE16(key, 0) == 2 && encBE64(key, 10) == rid && encBE64(key, 18) == txnTime && encBE64(key, 26) == p && encBE16(key, 34) == 1 && encBE32(key, 36) == ds.InternalID
+//@   at call Set#7 before
+//@     assert [C03,C06:outgoing-tombstone-deleted-entity] $arg0 == txn && len(key) == 40 && encBE16(key, 0) == 3 && encBE64(key, 2) == rid && encBE64(key, 10) == txnTime && encBE64(key, 18) == p && encBE16(key, 34) == 1 && encBE32(key, 36) == ds.InternalID
+//@   at call Set#8 before
+//@     assert [C03,C06:outgoing-key-live] $arg0 == txn && len(key) == 40 && encBE16(key, 0) == 3 && encBE64(key, 2) == rid && encBE64(key, 10) == txnTime && encBE64(key, 18) == predid && encBE64(key, 26) == relatedid && encBE16(key, 34) == 0 && encBE32(key, 36) == ds.InternalID
+//@   at call Set#9 before
+//@     assert [C03,C06:incoming-twin-live] $arg0 == txn && len(key) == 40 && encBE16(key, 0) == 2 && encBE64(key, 2) == relatedid && encBE64(key, 10) == rid && encBE64(key, 18) == txnTime && encBE64(key, 26) == predid && encBE16(key, 34) == 0 && encBE32(key, 36) == ds.InternalID
+//@   at call Delete#1 before
+//@     assert [C06:delete-only-own-txn-outgoing-tombstone] $arg0 == txn && encBE16(key, 0) == 3 && encBE64(key, 2) == rid && encBE64(key, 10) == txnTime && encBE64(key, 18) == predid && encBE64(key, 26) == relatedid && encBE16(key, 34) == 1 && encBE32(key, 36) == ds.InternalID
+//@   at call Delete#2 before
+//@     assert [C06:delete-only-own-txn-incoming-tombstone] $arg0 == txn && encBE16(key, 0) == 2 && encBE64(key, 2) == relatedid && encBE64(key, 10) == rid && encBE64(key, 18) == txnTime && encBE64(key, 26) == predid && encBE16(key, 34) == 1 && encBE32(key, 36) == ds.InternalID
+//@   at call Set#10 before
+//@     assert [C03,C06:incoming-tombstone-removed-ref] $arg0 == txn && len(key) == 40 && encBE16(key, 0) == 2 && encBE64(key, 10) == rid && encBE64(key, 18) == txnTime && encBE64(key, 26) == p && encBE16(key, 34) == 1 && encBE32(key, 36) == ds.InternalID
+//@   at call Set#11 before
+//@     assert [C03,C06:outgoing-tombstone-removed-ref] $arg0 == txn && len(key) == 40 && encBE16(key, 0) == 3 && encBE64(key, 2) == rid && encBE64(key, 10) == txnTime && encBE64(key, 18) == p && encBE16(key, 34) == 1 && encBE32(key, 36) == ds.InternalID
+//@   loop 1
+//@     invariant -1 <= $i && $i < len(entities)
+//@     invariant [C01,C02:skip-only-if-identical] firstG || wroteG || (!isnewG && ((hasLocalG && eqLocalG) || (!hasLocalG && hasStoredG && eqStoredG)))
+//@     invariant [C19:counts-first-seen-once] firstG || newitems == newitemsStartG + ((isnewG || (!hasStoredG && !hasLocalG)) ? 1 : 0)
+
+// ---------------------------------------------------------------------------
+// C04 / C05 / C19: a batch is written under the dataset's write lock, ids are committed before the data that names
+// them, the call is acknowledged only after the data transaction committed, the counter is updated after the commit
+
+//@ assumed (*Store).commitIDTxn
+//@   modifies $held
+//@   ensures $held == old($held)
+//@ assumed (*badger.Txn).Commit
+//@   pure
+//@ assumed (*Dataset).updateDataset
+//@   preserves Dataset.*, Store.*
+
+//@ unit (*Dataset).StoreEntities
+//@   prop C04 C05 C19
+//@   requires [callers-hold-no-lock-at-or-above-dataset-level] forall l int :: has($held, l) ==> lockLevel(l) < 2
+//@   ghost idsCommittedG bool = false
+//@   ghost committedG bool = false
+//@   ghost txnG int = 0
+//@   requires ds != nil && ds.store != nil && !has($held, addrOf(ds.WriteLock))
+//@   requires forall i int :: 0 <= i && i < len(entities) ==> entities[i] != nil
+//@   requires ds.fullSyncStarted ==> ds.fullSyncSeen != nil
+//@   ensures [C04:ack-implies-committed] result == nil && len(entities) > 0 ==> committedG && idsCommittedG
+//@   ensures [C05:lock-released] $held == old($held)
+//@   at call NewTransaction#1
+//@     ghost txnG := $result
+//@   at call StoreEntitiesWithTransaction#1 before
+//@     assert [C05:previous-version-read-under-the-write-lock] has($held, addrOf(ds.WriteLock))
+//@     assert [C04:one-transaction-for-the-batch] txn == txnG && txnTime >= 0
+//@   at call commitIDTxn#1
+//@     ghost idsCommittedG := $result == nil
+//@   at call Commit#1 before
+//@     assert [C04:ids-committed-before-data] idsCommittedG && $arg0 == txnG
+//@     assert [C05:commit-under-the-write-lock] has($held, addrOf(ds.WriteLock))
+//@   at call Commit#1
+//@     ghost committedG := $result == nil
+//@   at call updateDataset#1 before
+//@     assert [C19:counter-updated-after-commit-under-the-lock] committedG && has($held, addrOf(ds.WriteLock))
